@@ -142,6 +142,17 @@ def run_config(case, monitor_reads=False, calls=None):
                                  "requests": dev.requests[req0:], "short_reads": list(obs["short_reads"]),
                                  "battery_mode": case["battery_modes"][j] if fam == "ET" else None})
             obs["short_reads"].clear()
+        if monitor_reads:
+            # single reads of sensors that cannot be read on their own (formulas, values spread over blocks)
+            ids = [s.id_ for s in inv.sensors() if type(s).__name__ in ("Calculated", "EnumBitmap22", "EnumCalculated")]
+            step = max(1, len(ids) // 4)
+            obs["singles"] = []
+            for sid in ids[case["seed"] % 3::step][:4]:
+                req0 = len(dev.requests)
+                rec = await C.do_call(world, f"read_sensor:{sid}", lambda: inv.read_sensor(sid))
+                obs["singles"].append({"id": sid, "rec": rec, "requests": dev.requests[req0:],
+                                       "short_reads": list(obs["short_reads"]), "sensors": inv.sensors()})
+                obs["short_reads"].clear()
 
     status, _ = C.run_world(world, main())
     obs["status"] = status
